@@ -172,10 +172,17 @@ func runC02(c *Ctx) {
 	c.policyArraysLemma()
 	lenAtLeast = map[string]string{"len(cp.CPSUri)": "len(cp.PolicyIdentifiers)"}
 	defer func() { lenAtLeast = map[string]string{} }()
-	nb := 0
+	nb, vanished := 0, 0
 	for _, name := range c02Covered {
 		fn := inScope[name]
 		if fn == nil {
+			if !c.W.moduleHasFunc(name) && vanished < 2 {
+				// deleted (inlined into its callers): there is no code left to bound; at most two such
+				// functions are tolerated before the list counts as eroded
+				vanished++
+				c.OK("R-BOUNDS", name, "covered function is still part of the scope", "-", "the function no longer exists in the module (nothing to bound; its callers are judged under their own names)")
+				continue
+			}
 			c.Undecided("R-BOUNDS", name, "covered function is still part of the scope", "-", "not found in the closure of the roots")
 			continue
 		}
